@@ -66,19 +66,53 @@ def snds (l : List (Nat × Nat)) : List Nat := l.map (·.2)
 /-- the Rust `categories` vector: one more element than `boundaries`, the last one DEFAULT -/
 def categoriesVec (tab : List (Nat × Nat)) : List Nat := snds tab ++ [DEFAULT]
 
-/-- Contract of `slice::binary_search` on a strictly increasing slice:
-`(i, true)` = `Ok(i)` with `bs[i] = x`; `(i, false)` = `Err(i)` with `i` the insertion point. -/
-def searchIdx : List Nat → Nat → Nat × Bool
-  | [], _ => (0, false)
-  | b :: bs, x =>
-    if x < b then (0, false) else if x = b then (0, true)
-    else ((searchIdx bs x).1 + 1, (searchIdx bs x).2)
+/-- The `while size > 1` loop of `core::slice::binary_search_by`, transcribed from the standard library
+of the toolchain in use (rustc 1.95.0, `library/core/src/slice/mod.rs`):
+```text
+let mut size = self.len(); if size == 0 { return Err(0); }
+let mut base = 0usize;
+while size > 1 {
+    let half = size / 2;  let mid = base + half;
+    let cmp = f(self.get_unchecked(mid));                         // f = |p| p.cmp(x)
+    base = hint::select_unpredictable(cmp == Greater, base, mid); // = if cmp == Greater { base } else { mid }
+    size -= half;
+}
+let cmp = f(self.get_unchecked(base));
+if cmp == Equal { Ok(base) } else { Err(base + (cmp == Less) as usize) }
+```
+`fuel` only makes the recursion structural (`size` strictly decreases while it is `> 1`; `bsearch`
+passes `fuel = size`).  `none` = a `get_unchecked` outside the slice (undefined behaviour in Rust);
+`Proofs/CharCat.lean: bsearch_in_range` proves that it never happens, for any slice. -/
+def bsLoop (l : List Nat) (x : Nat) : Nat → Nat → Nat → Option Nat
+  | 0, _, base => some base
+  | fuel + 1, size, base =>
+    if size > 1 then
+      let half := size / 2
+      let mid := base + half
+      match l[mid]? with
+      | none => none
+      | some p => bsLoop l x fuel (size - half) (if p > x then base else mid)
+    else some base
+
+/-- `slice::binary_search(&x)` = `binary_search_by(|p| p.cmp(x))`:
+`(i, true)` = `Ok(i)`, `(i, false)` = `Err(i)` -/
+def bsearch (l : List Nat) (x : Nat) : Option (Nat × Bool) :=
+  if l.length = 0 then some (0, false) else
+  match bsLoop l x l.length l.length 0 with
+  | none => none
+  | some base =>
+    match l[base]? with
+    | none => none
+    | some p =>
+      if p = x then some (base, true)
+      else some (base + (if p < x then 1 else 0), false)
 
 /-- `get_category_types` -/
 def lookup (tab : List (Nat × Nat)) (x : Nat) : Option Nat :=
   if tab.isEmpty then some DEFAULT else
-  let r := searchIdx (fsts tab) x
-  if r.2 then (categoriesVec tab)[r.1 + 1]? else (categoriesVec tab)[r.1]?
+  match bsearch (fsts tab) x with
+  | none => none
+  | some r => if r.2 then (categoriesVec tab)[r.1 + 1]? else (categoriesVec tab)[r.1]?
 
 /-! ## definition file parser (`read_character_definition`) -/
 
